@@ -100,7 +100,6 @@ def main():
             broken.append({'what': 'proof-audit', 'name': '; '.join(audit['problems'])[:1500]})
     else:
         # find which module failed
-        import re
         failed = re.findall(r'error: ([^\n]*)', llog)
         # the driver may still be usable from a previous build only if its own modules built
         broken.append({'what': 'proof-obligation', 'name': 'lake build ' + ' '.join(mods), 'log': llog[-3000:], 'errors': failed[:10]})
